@@ -133,7 +133,13 @@ impl GenerationPass for AvailableValuePass {
                 // empty meet as the empty map made such a node and the head
                 // of its loop flip between two states forever. Leave it for
                 // the next sweep, when a predecessor has been computed.
-                if !node.prevs().is_empty()
+                // (An entry is where the values come from: what it leaves
+                // does not depend on what reaches it, so it never waits. A
+                // function whose body lies in front of its entry label, and
+                // is reached through it only, is computed from the entry -
+                // not from a seed in its middle with nothing known.)
+                if !node.is_any_entry()
+                    && !node.prevs().is_empty()
                     && !node.prevs().iter().any(|x| visited.contains(x))
                     && !seeds.contains(&node)
                 {
